@@ -82,11 +82,17 @@ def classify(spec, prop, parsed, timed_out, rc):
             r["covers"].append({"desc": c["desc"], "status": c["status"]})
     fails = [c for c in checks if c["status"] == "FAILURE" and not is_cover(c)]
     limit = [c for c in fails if "[LIMIT]" in c["desc"]]
-    real = [c for c in fails if not is_unwind(c) and not is_unsupported(c) and "[LIMIT]" not in c["desc"]]
+    # preconditions of Kani's own allocator model (kani_lib.c: __rust_dealloc/__rust_alloc): in safe Rust these can only
+    # fail through a model quirk (seen: capacity-0 Vec returned from a stub), never through the code under test
+    quirk = [c for c in fails if "kani_lib.c" in (c.get("loc") or "") and not spec.get("trust_alloc_checks")]
+    real = [c for c in fails if not is_unwind(c) and not is_unsupported(c) and "[LIMIT]" not in c["desc"] and c not in quirk]
     rel = [c for c in real if relevant(c, prop, spec)]
     r["other_failures"] = [c for c in real if not relevant(c, prop, spec)]
     if limit:
         r.update(status="inconclusive", reason="harness limit exceeded: " + limit[0]["desc"])
+        return r
+    if quirk and not [c for c in real if relevant(c, prop, spec)]:
+        r.update(status="inconclusive", reason="allocator-model precondition failed (back-end model quirk, not attributable to the code under test): " + quirk[0]["desc"])
         return r
     if rel:
         r["status"] = "fail"
@@ -356,8 +362,9 @@ def check_property(prop, tier, seed, only=None, jobs=0, do_replay=True, write_ev
         if do_replay and mode == "playback":
             pr = run_harness(spec, slots[0], prop, logdir, playback=True)
             tests = pr["parsed"].get("playback") or []
-            want = [f["desc"] for f in new]
-            chosen = [t for t in tests if t["check"] in want] or tests
+            norm = lambda x: re.sub(r'[\\"]', "", x or "").strip()
+            want = [norm(f["desc"]) for f in new]
+            chosen = [t for t in tests if norm(t["check"]) in want] or [t for t in tests if "cover condition" not in (t["check"] or "")] or tests
             wit["playback_tests"] = chosen[:4]
             reproduced = False
             nat = []
